@@ -628,16 +628,14 @@ func (d *Driver) Check(e *mc.Env, s *mc.State) []mc.Finding {
 			}
 		}
 	}
-	// the all-heights query covers every height; by-height queries are made for every due height of the path
-	// (before and after processing) and for the heights around the current one
+	// the all-heights query covers every height (a processed request must be absent from it); by-height queries
+	// are made for the due heights of the waiting requests (right slot) and for the height drained last
 	check(0, "RandomRequestQueue(all heights)")
-	hs := map[int64]bool{}
+	hs := map[int64]bool{s.Ctx.BlockHeight() - 1: true}
 	for _, r := range m.reqs {
-		hs[r.Due] = true
-		hs[r.Height] = true
-	}
-	for q := s.Ctx.BlockHeight() - 1; q <= s.Ctx.BlockHeight()+1; q++ {
-		hs[q] = true
+		if r.St == stPending {
+			hs[r.Due] = true
+		}
 	}
 	var heights []int64
 	for q := range hs {
